@@ -31,6 +31,7 @@ EntryVariants == {Entry(Prefix \o Rel[i], "ok") : i \in 1..Len(Rel)}
                  \cup {Entry(PrefixVariants[j] \o S("a.go"), "ok") : j \in 2..Len(PrefixVariants)}
                  \cup {Entry(Prefix \o S("a.go"), s) : s \in {"lie-more", "lie-less"}}
                  \cup {Entry(Prefix \o n, "big") : n \in {S("go.mod"), S("LICENSE"), S("a.go")}}
+                 \cup {Entry(Prefix \o S("a.go"), "over"), Entry(Prefix \o S("a.go"), "huge"), Entry(Prefix \o S("go.mod"), "huge"), Entry(Prefix \o S("d/"), "huge")}
 
 Init == phase = "hub" /\ lst = <<>>
 Next == \/ /\ phase = "hub" /\ MaxList > 0 /\ phase' = "files" /\ lst' \in {<<f>> : f \in AllFiles}
@@ -71,6 +72,6 @@ Emit ==
     /\ phase = "files" => PrintT(ToJson([w |-> "modzip", k |-> "files", in |-> [files |-> lst],
                                          exp |-> [valid |-> Cl.valid, omitted |-> Cl.omitted, invalid |-> Cl.invalid, createok |-> CreateOK(lst, G), ge124 |-> G]]))
     /\ phase = "zip" => PrintT(ToJson([w |-> "modzip", k |-> "zip", in |-> [entries |-> lst],
-                                       exp |-> [valid |-> CheckZip(lst, Prefix).valid, invalid |-> CheckZip(lst, Prefix).invalid,
+                                       exp |-> [valid |-> CheckZip(lst, Prefix).valid, invalid |-> CheckZip(lst, Prefix).invalid, sizeerr |-> CheckZip(lst, Prefix).sizeerr,
                                                 unzipok |-> UnzipOK(lst, Prefix), tree |-> UnzipTree(lst, Prefix)]]))
 ==============================================================================
